@@ -50,3 +50,28 @@ func mergeHeaders(into, from http.Header) {
 		into[k] = append(into[k], vals...)
 	}
 }
+
+// mergeMetadataHeaders merges an error's metadata into the headers of the
+// response that carries the error. The metadata may be the HTTP headers of a
+// response received from another server (the Meta of an error returned by one
+// of our clients): what those said about the framing and encoding of that
+// response's body must not describe ours.
+func mergeMetadataHeaders(into, from http.Header) {
+	for k, vals := range from {
+		if isFramingHeader(k) {
+			continue
+		}
+		into[k] = append(into[k], vals...)
+	}
+}
+
+func isFramingHeader(key string) bool {
+	switch key {
+	case "Content-Type", "Content-Length", "Content-Encoding", "Transfer-Encoding", "Trailer",
+		"Accept-Encoding", "Connect-Content-Encoding", "Connect-Accept-Encoding",
+		"Grpc-Encoding", "Grpc-Accept-Encoding":
+		return true
+	default:
+		return false
+	}
+}
